@@ -376,7 +376,11 @@ func (w *World) client(p *CallPlan) *connect.Client[Msg, Msg] {
 	if w.real != nil {
 		hc = &realClient{n: w.real, h2: p.K.HTTP2}
 	}
-	c := connect.NewClient[Msg, Msg](hc, "http://sim.test"+procName(p.Handler, p.Kind), opts...)
+	target := "http://sim.test" + procName(p.Handler, p.Kind)
+	if cfg.OddURL {
+		target += "?tenant=a#50%"
+	}
+	c := connect.NewClient[Msg, Msg](hc, target, opts...)
 	w.clients[key] = c
 	return c
 }
